@@ -65,19 +65,23 @@ Definition wolf_exec (dW dL sc : Q) (qm : mat) (A : nat) (ops : list wolf_op) : 
   fold_left (wolf_apply qm) ops (mkWst dW dL sc (repeat (wolf_init A) (length qm))).
 
 (* ------------------------------------------------------------------ PGAAPPPolicy *)
-Record pga_st := mkPst { ps_lr : Q; ps_pl : Q; ps_rows : mat }.
+(* the policy holds a REFERENCE to the Q-function (QPolicyInterface::q_): the table may change
+   between updates, so it is part of the state and [PSetQ] is an operation *)
+Record pga_st := mkPst { ps_lr : Q; ps_pl : Q; ps_q : mat; ps_rows : mat }.
 Inductive pga_op : Type :=
 | PUpd (s : nat)                     (* stepUpdateP(s) *)
-| PSetLr (x : Q) | PSetPl (x : Q).   (* setLearningRate / setPredictionLength: throw when x < 0 *)
+| PSetLr (x : Q) | PSetPl (x : Q)    (* setLearningRate / setPredictionLength: throw when x < 0 *)
+| PSetQ (s a : nat) (v : Q).         (* the owner of the Q-function writes q(s, a) = v *)
 Definition neg_throws (x : Q) : bool := if Qlt_le_dec x 0 then true else false.
-Definition pga_apply (qm : mat) (st : pga_st) (op : pga_op) : pga_st :=
+Definition pga_apply (st : pga_st) (op : pga_op) : pga_st :=
   match op with
-  | PUpd s => mkPst (ps_lr st) (ps_pl st) (pga_step (ps_lr st) (ps_pl st) qm (ps_rows st) s)
-  | PSetLr x => if neg_throws x then st else mkPst x (ps_pl st) (ps_rows st)
-  | PSetPl x => if neg_throws x then st else mkPst (ps_lr st) x (ps_rows st)
+  | PUpd s => mkPst (ps_lr st) (ps_pl st) (ps_q st) (pga_step (ps_lr st) (ps_pl st) (ps_q st) (ps_rows st) s)
+  | PSetLr x => if neg_throws x then st else mkPst x (ps_pl st) (ps_q st) (ps_rows st)
+  | PSetPl x => if neg_throws x then st else mkPst (ps_lr st) x (ps_q st) (ps_rows st)
+  | PSetQ s a v => mkPst (ps_lr st) (ps_pl st) (upd_vrow s (set_nth a v) (ps_q st)) (ps_rows st)
   end.
 Definition pga_exec (lr pl : Q) (qm : mat) (A : nat) (ops : list pga_op) : pga_st :=
-  fold_left (pga_apply qm) ops (mkPst lr pl (repeat (repeat (1 / qn A) A) (length qm))).
+  fold_left pga_apply ops (mkPst lr pl qm (repeat (repeat (1 / qn A) A) (length qm))).
 
 (* ------------------------------------------------------------------ which operations are legal *)
 (* LRP: arms in range; a, b in [0,1] (documented); with a single arm only b = 0 makes sense
@@ -289,3 +293,11 @@ End MSoftmax.
 (* every state row moved by its own constant *)
 Definition shift_rows (cs : vec) (qm : mat) : mat :=
   map (fun cq : Q * vec => shift (fst cq) (snd cq)) (combine cs qm).
+
+(* ------------------------------------------------------------------ MDP::Policy(const PolicyMatrix &) *)
+(* src: Utils/Probability.cpp:isProbability(const Matrix2D &) — every row: minCoeff() >= 0 and the row
+   sum within equalToleranceSmall of one;  MDP/Policies/Policy.cpp:Policy(const PolicyMatrix & p)
+   throws invalid_argument unless isProbability(p), otherwise stores p as its table *)
+Definition prob_rowb (r : vec) : bool := nonnegb r && eqSmall (qsum r) 1.
+Definition is_prob_matrixb (m : mat) : bool := forallb prob_rowb m.
+Definition policy_ctor (m : mat) : option mat := if is_prob_matrixb m then Some m else None.
